@@ -3,7 +3,7 @@
    and the deep snapshot of EVERY pool value after the last step.  The model is run with two growth policies
    (exact need / doubling); the results are also compared with the pure layer (Model/Coll.v). *)
 From Coq Require Import ZArith NArith Bool List.
-From PcoreV Require Import Model.Base Model.Heap Model.Coll Model.CollHeap Model.CollHeapX.
+From PcoreV Require Import Model.Base Model.Heap Model.Coll Model.CollHeap Model.CollHeapX Model.CollHeapA.
 From PcoreV Require Import Model.Ty Model.Lattice Model.Infer Model.InferHeap.
 Import ListNotations.
 
@@ -27,6 +27,18 @@ Definition c08_x_check (c : list xop * (list out * list pv)) : bool :=
   c08_x_check_with grow_double c && c08_x_check_with grow_exact c.
 
 Definition c08_x_mismatches (cs : list (list xop * (list out * list pv))) : list N := failing c08_x_check cs.
+
+(* ---- histories with read accessors that hand out Go slices and the writes of the caller into what came back
+   (Model/CollHeapA.v): the projected result of every step (for an accessor step: the slice that was handed out, after the
+   writes, wrapped) and the final observation of every pool value, under two growth policies ---- *)
+Definition c08_a_check_with (grow : nat -> nat -> nat) (c : list aop * (list out * list pv)) : bool :=
+  let '(st, outs) := arun grow empty_state (fst c) in
+  list_eqb out_eqb outs (fst (snd c)) && list_eqb pv_eqb (final_obs st) (snd (snd c)).
+
+Definition c08_a_check (c : list aop * (list out * list pv)) : bool :=
+  c08_a_check_with grow_double c && c08_a_check_with grow_exact c.
+
+Definition c08_a_mismatches (cs : list (list aop * (list out * list pv))) : list N := failing c08_a_check cs.
 
 (* ---- results that are types: the slice-level model of inference (Model/InferHeap.v) on a type history: the
    projected result of every step and the final observation of EVERY pool entry (values and types), under two
